@@ -889,7 +889,8 @@ def run(tier):
     D, N = (2, 2)
     tasks = ksweep.build_tasks(reqs, D, N, ["backends"], "corners", 8000, 400)
     tasks = [{**t, "mode": "c06", "program": p} for t in tasks for p in ("evaluate", "assemble+compute")]
-    results = ksweep.run_tasks(tasks, worker=kprog.run_task)
+    wall_budget = None if tier == "quick" else int(os.environ.get("VERIF_THOROUGH_BUDGET_S", "2400"))
+    results = ksweep.run_tasks(tasks, worker=kprog.run_task, wall_budget=wall_budget)
     kagg = {"paths": 0, "decisions": 0, "queries": 0, "solver_s": 0.0}
     generated = set()
     refused = 0
